@@ -145,3 +145,45 @@ Lemma added_gzip_travels_with_the_request :
   [ (bs "readLoop", bs "use", bs "rc.addedGzip");
     (bs "roundTrip", bs "set", bs "addedGzip: requestedGzip") ].
 Proof. reflexivity. Qed.
+
+(* ---------- the charset step leaves a still-coded body alone ---------- *)
+
+(* whatever the decision was: if what the stack returned still names a coding (first Content-Encoding
+   line not empty) the charset step does not touch it - with `C14_otherwise_untouched` /
+   `C14_nothing_wanted_nothing_touched`: an unsupported coding is delivered byte for byte whatever the
+   Content-Type says *)
+Lemma charset_step_skips_coded dis st c auto ended r :
+  header_get (r_ce (respond st c auto ended r)) <> [] ->
+  charset_step_applies dis (respond st c auto ended r) = false.
+Proof.
+  intros H. unfold charset_step_applies. destruct (header_get (r_ce (respond st c auto ended r)));
+    [contradiction|]. cbn [is_empty]. apply andb_false_r.
+Qed.
+
+(* and a decoded response names no coding any more: the charset step (C15) may run on the original text *)
+Lemma charset_step_sees_decoded dis st c auto r e :
+  r_cl r <> 0%Z -> wants_decode c auto (content_encoding (r_ce r)) = Some e ->
+  charset_step_applies dis (respond st c auto false r) = negb dis.
+Proof.
+  intros Hcl Hw. rewrite respond_spec by exact Hcl. rewrite Hw. unfold charset_step_applies.
+  cbn [delivered rewrite r_ce header_get is_empty]. apply andb_true_r.
+Qed.
+
+(* a guard that only knows a list of codings runs the charset decoder over an lz4 body *)
+Definition r_lz4 : resp :=
+  {| r_ce := [bs "lz4"]; r_clh := [bs "4"]; r_other := [(bs "Content-Type", bs "text/plain; charset=gbk")];
+     r_cl := 4%Z; r_unc := false; r_body := Raw (bs "zzzz"); r_short := false |}.
+
+Lemma listed_guard_refuted :
+  forall st, respond st (cfg_under s_on q_plain) true false r_lz4 = r_lz4 /\
+  charset_step_applies false (respond st (cfg_under s_on q_plain) true false r_lz4) = false /\
+  charset_step_applies_listed false (respond st (cfg_under s_on q_plain) true false r_lz4) = true.
+Proof. intros st. destruct st; vm_compute; repeat split. Qed.
+
+(* read off transport.go: the charset step returns at once when auto-decode is off or the first
+   Content-Encoding line is not empty *)
+Lemma charset_guard_as_modelled :
+  charset_step_guard =
+  [ (bs "autoDecodeResponseBody",
+     bs "t.disableAutoDecode || res.Header.Get(""Content-Encoding"") != """"", bs "return") ].
+Proof. reflexivity. Qed.
